@@ -98,6 +98,7 @@ def bump (i : Nat) : M Unit := do
   | some e =>
     let v := match s.kind with
       | .tracked => e.val + 1000
+      | .plain => e.val + 1000
       | .byte => (e.val + 1000) % 256
       | .zst => e.val
     setItems (setCell b.items i (some { e with val := v }))
@@ -440,6 +441,10 @@ def runOp (toks : List String) : M String := do
     let nb ← swapIn old
     pure s!"{nb.start} {nb.size}"
   | ["junk", _] => do junkFill; pure "-"
+  | ["fill_all"] => do
+    let b ← getBuf
+    setBuf { cap := b.cap, size := b.cap, start := 0, items := fun _ => some ⟨0, 0⟩ }
+    pure "-"
   | ["drop"] => do
     let b ← getBuf
     tryFinally dropBuffer (setBuf (CB.new b.cap))
@@ -462,6 +467,8 @@ def parseKind : String → Option Kind
   | "t" => some .tracked
   | "b" => some .byte
   | "z" => some .zst
+  | "p" => some .plain
+  | "u" => some .byte
   | _ => none
 
 /-- one protocol step: new state and the output line -/
